@@ -185,6 +185,28 @@ def preorderView (A : List Cell) : Json :=
       | some lk => Json.arr #[.str "n", (num lk.parent : Json), .str lk.key, optNat lk.index, .bool h.isNone]
     | _ => Json.str "s").toArray
 
+/-- the classes taking the special branches of `Expression.type` (Generated/C12.lean, from the live classes) -/
+def rules : TypeRules where
+  isDataType := fun c => dataTypeClasses.contains c
+  isCast := fun c => castClasses.contains c
+
+def genKeys : Keys where
+  index := keyIndex
+  key := keyArgKey
+  isArr := keyIsArray
+  cls := keyClass
+  ty := keyType
+  comments := keyComments
+  mta := keyMeta
+  value := keyValue
+  metaExpr := keyMetaExpr
+
+def tokToJson : Tok → Json
+  | .lbrace => "{" | .rbrace => "}" | .lbrack => "[" | .rbrack => "]" | .comma => "," | .colon => ":"
+  | .null => "null" | .tt => "true" | .ff => "false"
+  | .num i => Json.arr #["n", Json.num (Lean.JsonNumber.fromInt i)]
+  | .str s => Json.arr #["s", .str s]
+
 def handle (line : String) : Except String String := do
   let j ← Json.parse line
   let op ← (← j.getObjVal? "op").getStr?
@@ -192,7 +214,8 @@ def handle (line : String) : Except String String := do
   | "dump" =>
     let t ← valOfJson (← j.getObjVal? "tree")
     let want ← j.getObjVal? "payload"
-    let got := Json.arr ((dump t).map payloadToJson).toArray
+    -- the tree carries raw `_type` fields: the model applies the `type` property itself
+    let got := Json.arr ((realDump rules t).map payloadToJson).toArray
     if got == want then pure "ok" else pure ("diff " ++ got.compress)
   | "load" =>
     let ps ← (← (← j.getObjVal? "payload").getArr?).toList.mapM payloadOfJson
@@ -227,6 +250,16 @@ def handle (line : String) : Except String String := do
       else
         let gv := preorderView B
         if gv == wantView then pure "ok" else pure ("diffview " ++ gv.compress)
+  | "jsontok" =>
+    -- the token sequence of json.dumps(payloads) vs the model's `render` of the payload list
+    let ps ← (← (← j.getObjVal? "payload").getArr?).toList.mapM payloadOfJson
+    let want ← j.getObjVal? "tokens"
+    let toks := render (.list (payloadsToPy genKeys ps))
+    let got := Json.arr (toks.map tokToJson).toArray
+    let back := match parse (toks.length + 1) toks with
+      | some (v, []) => (render v == toks)
+      | _ => false
+    if got == want && back then pure "ok" else pure ("diff " ++ got.compress)
   | "norm" =>
     let t ← valOfJson (← j.getObjVal? "tree")
     pure (valToJson t.norm).compress
